@@ -220,6 +220,14 @@ class C03Case:
             return {'build/' + o for o in outs}
         if ref.startswith(("'", '"')):
             return {'src/' + ref.strip("'\"")}
+        if ref == 'grp':
+            # the alias: stands for its members
+            out = set()
+            for st in self.proj.stmts('alias'):
+                if st.var == 'grp':
+                    for mvar in st.facts.get('members', ()):
+                        out |= self.outputs_named(mvar)
+            return out
         out = self.outputs_named(ref)
         if ref == 'sublib':
             out |= {f for f in g.producer
@@ -412,6 +420,14 @@ class C03Case:
         if ran - allowed or r.inv:
             feats = set()
             extra = ran - allowed
+            users = {'build/' + n for n in
+                     (self.proj.model or {}).get('alias_users', ())}
+            if extra and not r.inv and users and \
+               self.sim.backend == 'make' and all(
+                   self.graph.steps[k]['writes'] & users for k in extra):
+                # Make: a .PHONY prerequisite (the alias) is always out of
+                # date, and so is whatever names it as a dependency
+                feats.add('phony-alias-prerequisite')
             if extra and not r.inv and all(
                     self.graph.steps[k]['tool'] == 'ln' and
                     self.must_edges.get(k) for k in extra):
@@ -835,10 +851,19 @@ def check_default_membership(c, all_ran, rng):
     built_files = set()
     for k in all_ran:
         built_files |= g.steps[k]['writes']
+    # executables a member needs (it names an alias of them as a dependency)
+    needed = set()
+    users = {'exe_' + n for n in model.get('alias_users', ())}
+    if users & members:
+        for st in proj.stmts('alias'):
+            if st.var == 'grp':
+                needed |= set(st.facts.get('members', ()))
     for st in proj.stmts('executable'):
         outs = c.outputs_named(st.var)
         is_member = st.var in members
         built = bool(outs & built_files)
+        if not is_member and st.var in needed:
+            continue
         if is_member and not built:
             c.vio('default-membership', '`all` did not build {} which is in '
                   'the default set'.format(st.facts['name']),
